@@ -71,17 +71,16 @@ structure KidsRes (σ α : Type) where
   kids : PKids α
   st : σ
   newInf : List Nat          -- labels of children that were found infeasible in this sweep
-  lastFresh : Bool           -- the last existing child was `Indeterminate` on entry and the phases reached a
-                             -- verdict for it (`forward_if_redundant` runs when that child is *visited*, before its
-                             -- sub-tree is swept: an undecided last child blocks forwarding even if a feasible
-                             -- grand-child is forwarded into its slot later)
+  lastFresh : Bool           -- the last existing child was `Indeterminate` on entry (`forward_if_redundant` runs when
+                             -- that child is *visited*, right after the phases, before its sub-tree is swept)
 
-/-- `forward_if_redundant` condition for a binary node: both children exist, one feasible, one infeasible;
-    returns the label of the feasible child -/
+/-- `forward_if_redundant` condition for a binary node: both children exist, one is marked infeasible and the other
+    is not (feasible or still undecided: the sibling's region is empty, so the decision is redundant either way);
+    returns the label of the surviving child -/
 def forwardLabel? : PKids α → Option Nat
   | .cons (some a) (.cons (some b) .nil) =>
-    if a.val.state.isFeasible && b.val.state.isInfeasible then some 0
-    else if a.val.state.isInfeasible && b.val.state.isFeasible then some 1
+    if !a.val.state.isInfeasible && b.val.state.isInfeasible then some 0
+    else if a.val.state.isInfeasible && !b.val.state.isInfeasible then some 1
     else none
   | _ => none
 
@@ -129,7 +128,7 @@ def elimKids {σ : Type} (tol : α) (O : Oracles σ α) (n : Nat) (path : List (
       else
         let sub := elimNode tol O n false (path ++ [hyper]) d.1 ch d.2
         let r' := elimKids tol O n path paff pst r (l+1) sub.2
-        ⟨.cons (some sub.1) r'.kids, r'.st, r'.newInf, if r.count = 0 then d.1.isFeasible else r'.lastFresh⟩
+        ⟨.cons (some sub.1) r'.kids, r'.st, r'.newInf, if r.count = 0 then true else r'.lastFresh⟩
     | cached =>
       -- cached feasible: descend
       let sub := elimNode tol O n false (path ++ [hyper]) cached ch s
